@@ -107,7 +107,9 @@ STRING_LITERAL_SPECIALS = {
 #   BigQuery: backslash escape only; adjacent literals "a""b" are not one literal (GoogleSQL lexical structure)
 QUOTE_ESCAPE_STYLE = {
     "SQLiteModel": {"double"}, "PostgreSQLModel": {"double"}, "MySQLModel": {"double", "backslash"},
-    "SparkSQLModel": {"double", "backslash"}, "BigQueryModel": {"backslash"},
+    # Spark: backslash escapes always; a doubled quote is one quote only from Spark 4.0 — Spark 3.x reads "a""b" as two adjacent literals and
+    # concatenates them (spark.sql.legacy.consecutiveStringLiterals.enabled); the library's own dev environment pins pyspark 3.4.1
+    "SparkSQLModel": {"backslash"}, "BigQueryModel": {"backslash"},
 }
 # characters special inside a quoted identifier (other than the quote, which quote_identifier rejects)
 #   BigQuery: quoted identifiers "have the same escape sequences as string literals" (GoogleSQL lexical structure)
